@@ -125,6 +125,11 @@ func Load(repoDir string, overlay map[string][]byte, patterns []string, tags str
 	// C kernels from the cgo preambles of the current sources
 	if tmp, terr := os.MkdirTemp("", "gosym-ck"); terr == nil {
 		ck, cerr := loadCKernels(tmp, []string{repoDir + "/store/crc32.go", repoDir + "/store/leaf.go"})
+		if cerr == nil {
+			if _, serr := os.Stat(repoDir + "/quicklz/quicklz.c"); serr == nil {
+				cerr = ck.loadCFile(tmp, repoDir+"/quicklz/quicklz.c", repoDir+"/quicklz")
+			}
+		}
 		os.RemoveAll(tmp)
 		if cerr != nil {
 			return nil, cerr
@@ -303,6 +308,12 @@ func (e *Env) RunPath(s *smt.Solver, fn *ssa.Function, prefix []Decision, replay
 		switch p := r.(type) {
 		case engineAbort:
 			res.Status, res.Reason = p.status, p.reason
+			if p.status == psViolation && ctx.viol == nil && ctx.knownMemID != "" && strings.Contains(p.reason, ctx.knownMemPat) {
+				// engine-detected memory-safety violation classified as a recorded finding
+				res.KnownHits = append(res.KnownHits, violation{Label: "engine:" + firstWords(p.reason), Detail: p.reason, KnownID: ctx.knownMemID, Model: ctx.pcModel(), Prefix: append([]Decision(nil), ctx.taken...), Observes: ctx.observes})
+				res.Status, res.Reason = psCut, "known finding "+ctx.knownMemID+": "+p.reason
+				return
+			}
 			if p.status == psViolation {
 				res.Viol = ctx.viol
 				if res.Viol == nil {
